@@ -14,6 +14,7 @@ import (
 	"github.com/database64128/shadowsocks-go/conn"
 	"github.com/database64128/shadowsocks-go/netio"
 	"github.com/database64128/shadowsocks-go/socks5"
+	"github.com/database64128/shadowsocks-go/verifhook"
 	"go.uber.org/zap"
 )
 
@@ -332,6 +333,7 @@ func (s *StreamServer) HandleStream(rawRW netio.Conn, logger *zap.Logger) (req n
 		err = ErrRepeatedSalt
 		return
 	}
+	verifhook.At("ss2022.tcp.afterTryContains", rawRW)
 
 	// Check unsafe request stream prefix.
 	if !bytes.Equal(ursp, s.unsafeRequestStreamPrefix) {
@@ -380,6 +382,7 @@ func (s *StreamServer) HandleStream(rawRW netio.Conn, logger *zap.Logger) (req n
 	}
 
 	// Add request salt to pool.
+	verifhook.At("ss2022.tcp.beforeAdd", rawRW)
 	if !s.saltPool.Add(now, extendedSalt) {
 		return req, ErrRepeatedSalt
 	}
